@@ -1388,8 +1388,16 @@ func stRefusedThenSignalWitness(s *sink) {
 			return nil, false
 		}
 	}
-	for _, order := range []string{"refused,signal,step", "refused,step,signal", "refused,refused,signal", "callstep-refused,signal,step"} {
-		var stepCalls, sigCalls int64
+	for _, order := range []string{"refused,signal,step", "refused,step,signal", "refused,refused,signal", "callstep-refused,signal,step",
+		"signal,refused-signal,signal", "step,refused-signal,signal", "signal,callsignal-refused,signal,step", "refused-signal,signal,step"} {
+		var stepCalls, sigCalls, inits int64
+		var seenMu sync.Mutex
+		var seen []any
+		saw := func(d any) {
+			seenMu.Lock()
+			seen = append(seen, d)
+			seenMu.Unlock()
+		}
 		inScope := func() *schema.ScopeSchema {
 			return schema.NewScopeSchema(schema.NewObjectSchema("in", map[string]*schema.PropertySchema{
 				"name": schema.NewPropertySchema(schema.NewStringSchema(nil, sp(int64(8)), nil), nil, true, nil, nil, nil, nil, nil)}))
@@ -1397,10 +1405,11 @@ func stRefusedThenSignalWitness(s *sink) {
 		step := schema.NewCallableStepWithSignals[any, any]("s", inScope(),
 			map[string]*schema.StepOutputSchema{"success": schema.NewStepOutputSchema(inScope(), nil, false)},
 			map[string]schema.CallableSignal{"poke": schema.NewCallableSignal[any, any]("poke", inScope(), nil,
-				func(_ context.Context, _ any, _ any) { atomic.AddInt64(&sigCalls, 1) })},
-			nil, nil, func() any { return &stBox{} },
-			func(_ context.Context, _ any, in any) (string, any) {
+				func(_ context.Context, d any, _ any) { atomic.AddInt64(&sigCalls, 1); saw(d) })},
+			nil, nil, func() any { return &stBox{n: atomic.AddInt64(&inits, 1)} },
+			func(_ context.Context, d any, in any) (string, any) {
 				atomic.AddInt64(&stepCalls, 1)
+				saw(d)
 				return "success", map[string]any{"name": "done"}
 			})
 		cs := schema.NewCallableSchema(step)
@@ -1427,6 +1436,21 @@ func stRefusedThenSignalWitness(s *sink) {
 				if ok && stErrType(err) != "InvalidInputError" {
 					s.finding(Finding{Prop: "C11", What: "CallStep with a rejected input: expected InvalidInputError", Detail: []string{what, fmt.Sprint(err)}})
 				}
+			case "refused-signal":
+				// the typed entry point given data that fails the signal's data schema
+				err, ok = within(what, func() error {
+					return step.CallSignal(ctx, "run-1", "poke", map[string]any{"name": "much too long a name"})
+				})
+				if ok && stErrType(err) != "InvalidInputError" {
+					s.finding(Finding{Prop: "C11", What: "the typed CallSignal given data that fails the signal's schema: expected InvalidInputError", Detail: []string{what, fmt.Sprint(err)}})
+				}
+			case "callsignal-refused":
+				err, ok = within(what, func() error {
+					return cs.CallSignal(ctx, "run-1", "s", "poke", map[string]any{"name": "much too long a name"})
+				})
+				if ok && stErrType(err) != "InvalidInputError" {
+					s.finding(Finding{Prop: "C11", What: "CallSignal with rejected data: expected InvalidInputError", Detail: []string{what, fmt.Sprint(err)}})
+				}
 			case "signal":
 				wantSig++
 				err, ok = within(what, func() error { return cs.CallSignal(ctx, "run-1", "s", "poke", map[string]any{"name": "x"}) })
@@ -1442,6 +1466,17 @@ func stRefusedThenSignalWitness(s *sink) {
 			}
 		}
 		s.stats["refused-then-signal-witness"]++
+		if ok {
+			if n := atomic.LoadInt64(&inits); n > 1 || (n == 0 && len(seen) > 0) {
+				s.finding(Finding{Prop: "C11", What: fmt.Sprintf("the step data of one run ID was created %d times (a refused call in between)", n), Detail: []string{order}})
+			}
+			for _, d := range seen {
+				if d != seen[0] {
+					s.finding(Finding{Prop: "C11", What: "a handler of the run was handed step data other than the run's first created step data (a refused call in between)", Detail: []string{order}})
+					break
+				}
+			}
+		}
 		if ok && (atomic.LoadInt64(&stepCalls) != wantStep || atomic.LoadInt64(&sigCalls) != wantSig) {
 			s.finding(Finding{Prop: "C11", What: fmt.Sprintf("handlers ran %d (step) / %d (signal) times, expected %d / %d", stepCalls, sigCalls, wantStep, wantSig), Detail: []string{order}})
 		}
